@@ -9,6 +9,7 @@ use crate::ldap::Ldap;
 use crate::parse_filter;
 use crate::protocol::LdapOp;
 use crate::result::{LdapError, LdapResult, Result};
+use crate::RequestId;
 
 use tokio::sync::{mpsc, Mutex};
 use tokio::time;
@@ -577,6 +578,9 @@ pub struct SearchStream<'a, S, A> {
     adapters: Vec<Arc<Mutex<Box<dyn Adapter<'a, S, A> + 'a>>>>,
     ax: usize,
     timeout: Option<Duration>,
+    // Message ID of the Search currently feeding the stream. The handle's last_id can't be
+    // used for this, since it changes if another operation is invoked through ldap_handle().
+    pub(crate) msgid: RequestId,
     pub res: Option<LdapResult>,
 }
 
@@ -593,6 +597,7 @@ where
             adapters: adapters.into_iter().map(Mutex::new).map(Arc::new).collect(),
             ax: 0,
             timeout: None,
+            msgid: 0,
             res: None,
         }
     }
@@ -661,7 +666,9 @@ where
         if let Some(timeout) = self.timeout {
             self.ldap.with_timeout(timeout);
         }
-        self.ldap.op_call(LdapOp::Search(tx), req).await.map(|_| {
+        let res = self.ldap.op_call(LdapOp::Search(tx), req).await;
+        self.msgid = self.ldap.last_id;
+        res.map(|_| {
             self.state = StreamState::Active;
         })
     }
@@ -670,8 +677,7 @@ where
         let item = if let Some(timeout) = self.timeout {
             let res = time::timeout(timeout, self.rx.as_mut().unwrap().recv()).await;
             if res.is_err() {
-                let last_id = self.ldap.last_id;
-                self.ldap.id_scrub_tx.send(last_id)?;
+                self.ldap.id_scrub_tx.send(self.msgid)?;
             }
             res?
         } else {
@@ -699,11 +705,11 @@ where
 
     pub(crate) async fn finish_inner(&mut self) -> LdapResult {
         if self.state != StreamState::Done {
-            let last_id = self.ldap.last_id;
-            if let Err(e) = self.ldap.id_scrub_tx.send(last_id) {
+            let msgid = self.msgid;
+            if let Err(e) = self.ldap.id_scrub_tx.send(msgid) {
                 warn!(
                     "error sending scrub message from SearchStream::finish() for ID {}: {}",
-                    last_id, e
+                    msgid, e
                 );
             }
         }
